@@ -94,6 +94,12 @@ def kde_native(vc):
     px = rng.permutation(xs.size)
     vc.ensures("independent_of_evaluation_order", bool(np.allclose(np.asarray(kde(xs[px])), p[px], rtol=1e-12, atol=0)
                                                       and np.allclose(np.asarray(kde.cdf(xs[px])), c[px], rtol=1e-12, atol=1e-15)))
+    # the values depend on the VALUES of the evaluation points only: one buffer evaluated, overwritten in place and evaluated again
+    buf = xs[px].copy()
+    kde(buf), kde.cdf(buf)
+    buf[:] = xs
+    vc.ensures("evaluation_buffer_reused_in_place", bool(np.allclose(np.asarray(kde(buf)), p, rtol=1e-12, atol=0)
+                                                        and np.allclose(np.asarray(kde.cdf(buf)), c, rtol=1e-12, atol=1e-15)))
     # integer-valued evaluation points given with an integer dtype (and Python ints) are points like any other
     xi = np.unique(np.round(np.linspace(lo, hi, 7)).astype(int))
     with np.errstate(all="ignore"):
